@@ -199,6 +199,24 @@ ADDENDA = {
            "the copy assignment does not read the source after releasing its own storage (self-assignment).",
     "C20": "AST rules are role-based (a member is what the constructor initialises it from). R20.5 (= R06.9): fixed_vector's iterator accessors delimit exactly its elements.",
 }
+ADDENDA2 = {
+    'C01': 'R01.9 (= R03.1) check() leaves command-line values alone; R01.10 as_short_list() is a multiset with one entry per letter.',
+    'C02': 'R02.7: R03.1, R01.5, R01.8 and R01.10 re-evaluated (a spelled value is final; matching is exact; bundles are accounted over all toggles).',
+    'C03': 'R03.6 also covers the reset pass being unconditional (R14.3); R03.7 (= R19.1) the environment wrapper returns the variable verbatim.',
+    'C04': 'R04.5 also re-evaluates R14.3 and R02.4; R04.6 (= R12.3, R12.6) the positional limit and the token syntax check are in force on every path.',
+    'C05': 'R05.4 threshold storage is one object per (record, index) (three witness instantiations); R05.9 record attributes own their data; the fan-out may be a lambda or a stateless function object.',
+    'C06': "Bulk reads of another container stay below its size_; a compiler-generated move is evaluated on the class's special members.", 'C07': 'R07.6 emplace direct-initialises the element and a range insert walks its source once.',
+    'C09': 'R09.2 also rejects a mutex reached through a static pointer that is assigned after its declaration (unsynchronised create-on-first-use).',
+    'C10': 'R10.3 gate-means-accepted: smart_stream::operator bool is equivalent to `the message buffer exists`; R05.4 re-evaluated.',
+    'C11': 'R11.3 the --no- form is matched by whole-name equality; R11.8 (= R19.1, R14.3).',
+    'C12': "R12.8 parser's move operations transfer every data member; a member positional list is emptied before the loop.", 'C13': 'R13.6 base::name_ is the declared string verbatim.',
+    'C14': 'R14.3 works on the reset / resolution passes of parse() (calls reaching every prepare()/check()), requires prepare() unconditionally for every option and a reset pass in parse(vector).',
+    'C15': 'R15.6 constant width <= 80 and no environment read on the usage path; R15.7 (= R08.x) and R15.8 (= R14.1/R14.2).',
+    'C16': "Witness cells w11-w13: the containers' key_equal is std::equal_to.", 'C17': 'R17.4 also checks guarded early answers of starts_with.',
+    'C18': 'R18.7 overload-resolution witness for copies of optional<bool>; deleter owned by value; one notion of empty.',
+    'C20': 'Witness cells w27-w33 (const rvalues are owned, const proxies alias, char arrays take the array overload).',
+}
+
 TECH = {
     "C08": "taint-style subject analysis of searches + regex-literal language equality + must-facts on the arity guards + abstract interpretation of the text-assembling loop over symbolic positions",
     "C09": "lock-scope must-dataflow over the CFG + storage/linkage rules for the mutex + acquire-loop typestate check for hand-written lockables + who-may-touch call-graph rule",
@@ -208,6 +226,8 @@ TECH = {
 
 def main():
     for k, v in ADDENDA.items():
+        CLAIMS[k]["text"] = CLAIMS[k]["text"].rstrip() + " " + v
+    for k, v in ADDENDA2.items():
         CLAIMS[k]["text"] = CLAIMS[k]["text"].rstrip() + " " + v
     for k, v in TECH.items():
         CLAIMS[k]["technique"] = v
